@@ -613,7 +613,7 @@ func clip(s string) string {
 var subModule = vk.Register("module", checkModule)
 
 func TestPropModules(t *testing.T) {
-	vk.Rapid(t, subModule, vk.N(1000, 5000), genModule)
+	vk.Rapid(t, subModule, vk.N(1000, 2500), genModule)
 }
 
 func TestReplay(t *testing.T) { vk.Replay(t) }
